@@ -56,7 +56,7 @@ CHECKS["C01"] = dict(
           "15 % of the pairs are brought to their placement by update_pose instead of the constructor. Tie model/code: the support points "
           "the implementation obtained in "
           "iteration i are replayed through step i of the model, which must reproduce every search direction, the iteration count, the exit and "
-          "(d, a, b); a difference is excused only if the model's own discrete behaviour changes under ~1-10 ulp perturbations of the trace "
+          "(d, a, b); a difference is excused only if the model's own discrete behaviour changes under ~1-10 ulp perturbations of the trace (for a difference in the exit decision of at most one iteration with equal search directions: also under 1e-14 / 1e-13 perturbations, because the relative-progress exit compares at one ulp) "
           "(excused cases are reported by kind in the evidence). "
           "NOT proved: accuracy of the relative-progress exit in binary64 (DESIGN section 7). Known finding F-J2 (the Jolt simplex solver's "
           "ill-conditioned classes reach the distance query), routed by replaying the trace and applying C18's exact predicates."),
